@@ -110,7 +110,6 @@ func vC19Check(tp *ethTxPool, accepted []vC19Tx, limit int) {
 			txs := w.Flatten()
 			vAssert(len(txs) > 0, "no-empty-waiting-entry")
 			for i, tx := range txs {
-				vAssert(tx.Nonce() >= st, "nothing-below-state-nonce-after-update")
 				if i > 0 {
 					vAssert(txs[i-1].Nonce() < tx.Nonce(), "waiting-sorted-no-duplicate-nonce")
 				}
@@ -225,4 +224,80 @@ func VerifHarness_C19_sortedmap_ready() {
 	vAssert(m.Len() == total-len(dropped)-len(ready), "nothing-else-removed")
 	vAssert(m.index.Len() == len(m.items), "heap-matches-items")
 	vReach("ready-done")
+}
+
+func vC19CheckN(tp *ethTxPool, limit int, accts int) {
+	vAssert(vC19Count(tp.pending) <= limit, "pending-within-limit")
+	vAssert(vC19Count(tp.waiting) <= limit, "waiting-within-limit")
+	inPool := 0
+	for a := 1; a <= accts; a++ {
+		addr := vC19Addr(a)
+		st := vC19Nonces[a]
+		if p := tp.pending[addr]; p != nil {
+			txs := p.Flatten()
+			vAssert(len(txs) > 0, "no-empty-pending-entry")
+			for i, tx := range txs {
+				vAssert(tx.Nonce() == st+uint64(i), "pending-consecutive-from-state-nonce")
+				_, known := tp.all[tx.Hash()]
+				vAssert(known, "pending-tx-in-lookup")
+			}
+			inPool += len(txs)
+		}
+		if w := tp.waiting[addr]; w != nil {
+			txs := w.Flatten()
+			vAssert(len(txs) > 0, "no-empty-waiting-entry")
+			for _, tx := range txs {
+				if p := tp.pending[addr]; p != nil {
+					vAssert(p.Get(tx.Nonce()) == nil, "no-nonce-in-both-queues")
+				}
+				_, known := tp.all[tx.Hash()]
+				vAssert(known, "waiting-tx-in-lookup")
+			}
+			inPool += len(txs)
+		}
+	}
+	vAssert(len(tp.all) == inPool, "lookup-holds-exactly-the-pooled-txs")
+}
+
+// One commit step from an ARBITRARY consistent pool (three accounts): the chain advances some
+// account nonces and the pool is updated (demoteUnexecutables + promoteExecutables over all accounts).
+func VerifHarness_C19_commit_step() {
+	limit := vParam("LIMIT", 3)
+	tp, app := vC19Pool(limit)
+	id := byte(0)
+	mk := func(a int, nonce uint64) *etypes.Transaction {
+		id++
+		tx := etypes.NewTransaction(nonce, common.Address{}, nil, 0, nil, []byte{byte(a), id})
+		tp.all[tx.Hash()] = []byte{byte(a), id}
+		return tx
+	}
+	for a := 1; a <= 3; a++ {
+		st := uint64(0)
+		vC19SetNonce(app, a, st)
+		pl := vNondetLen("pendinglen", 0, 2)
+		if pl > 0 {
+			tp.pending[vC19Addr(a)] = newTxSortedMap()
+			for i := 0; i < pl; i++ {
+				tp.pending[vC19Addr(a)].Put(mk(a, st+uint64(i)))
+			}
+		}
+		if wl := vNondetLen("waitinglen", 0, 2); wl > 0 {
+			wn := st + uint64(pl) + uint64(vNondetLen("waitgap", 0, 1))
+			tp.waiting[vC19Addr(a)] = newTxSortedMap()
+			tp.waiting[vC19Addr(a)].Put(mk(a, wn))
+			if wl > 1 {
+				tp.waiting[vC19Addr(a)].Put(mk(a, wn+1+uint64(vNondetLen("waitgap2", 0, 1))))
+			}
+			tp.waitingBeats[vC19Addr(a)] = time.Time{}
+		}
+	}
+	vAssume(vC19Count(tp.pending) <= limit && vC19Count(tp.waiting) <= limit)
+	// a tx that is executable may sit in waiting only because pending was full when it arrived;
+	// the pre-state is otherwise arbitrary
+	for a := 1; a <= 3; a++ {
+		vC19SetNonce(app, a, vC19Nonces[a]+uint64(vNondetLen("advance", 0, 1)))
+	}
+	tp.updateToState()
+	vReach("updated")
+	vC19CheckN(tp, limit, 3)
 }
